@@ -80,6 +80,149 @@ def known_match(run, what_kind, detail):
     return run.match_known(sig)
 
 
+LIVE_WRAPS = ["coap_ticks", "coap_socket_send", "coap_socket_recv"]
+
+
+def strip_tm(d):
+    """drop type and message id of a dump (chosen by the library for responses)"""
+    return re.sub(r"t=\d+ (c=\d+) m=\d+", r"\1", d)
+
+
+def corpus_exchange(ln):
+    """the parts of a corpus live line the oracle needs"""
+    t = ln.split()
+    b = lambda s_: b"" if s_ == "-" else bytes.fromhex(s_)
+    i = 6
+    nreq = int(t[i + 4])
+    req = dict(type=int(t[i]), code=int(t[i + 1]), mid=int(t[i + 2]), token=b(t[i + 3]),
+               opts=[(int(t[i + 5 + 2 * k]), b(t[i + 6 + 2 * k])) for k in range(nreq)],
+               payload=b(t[i + 5 + 2 * nreq]))
+    j = i + 6 + 2 * nreq
+    return dict(ctx=(b(t[1]), None if t[2] == "-" else b(t[2]), None if t[3] == "-" else b(t[3]), b(t[4]), b(t[5])),
+                req=req, cseq=int(t[j]), resp=None, sseq=int(t[-1]), sendpiv=0)
+
+
+def live_phase(run, model, live_cases, quick):
+    """real client session + real server context joined by harness/common/vnet.h: what the
+    application handlers see, for the genuine exchange and for every flip / truncation of the
+    request at the server (cold: first datagram of a new peer; warm: after the genuine exchange
+    from the same address) and of the response at the client"""
+    t0 = time.time()
+    import os
+    if not os.path.exists(os.path.join(vlib.ROOT, "harness", "common", "vnet.h")):
+        # the shared scripted network is the coordinator's file; a tree without it (a branch
+        # checked out on its own) can only run the PDU-level part
+        run.cov["live"] = {"skipped": "harness/common/vnet.h is not in this tree"}
+        vlib.log("note (C14): live client/server phase skipped, harness/common/vnet.h missing")
+        return
+    ldrv = vlib.build_driver("h_oscore_live", ["h_oscore_live.c"], wraps=LIVE_WRAPS)
+    st = {"exchanges": len(live_cases), "variants": 0, "handler_runs_unprotected_field": 0,
+          "violations": 0, "reference_checked": 0}
+    lines, meta = [], []
+    for ln in vlib.read_corpus("C14"):
+        if ln.split()[0] in ("liveflip", "liveflipw", "liveflipr"):
+            lines.append(ln)
+            meta.append((ln.split()[0], corpus_exchange(ln), {}))
+    for x, fm, fc in live_cases:
+        for cmd in ("live", "liveflip", "liveflipw", "liveflipr"):
+            lines.append(G.live_line(cmd, x))
+            meta.append((cmd, x, fm))
+    out, crashes = vlib.run_lines_robust(ldrv, lines, timeout=1500)
+    st["crashes"] = len(crashes)
+    follow = []     # (oscun line, expected libcoap application dump, description, replay)
+    nbad = 0
+
+    def bad(what, replay_text, no_input=False):
+        nonlocal nbad
+        nbad += 1
+        st["violations"] += 1
+        if nbad <= 4:
+            run.violation(what, replay_text, tag="live%d" % nbad, no_input=no_input)
+
+    for (cmd, x, fm), ln, o in zip(meta, lines, out):
+        run.cov["evaluations"] += 1
+        secret, salt, idctx, cid, sid = G.ctx_tokens(x["ctx"])
+        if o.startswith("CRASH") or o.startswith("NOCTX") or "=" not in o:
+            bad("live driver: libcoap crashes or refuses (%s)" % o[:80], "case: %s\nimpl : %s\n" % (ln, o))
+            continue
+        if cmd == "live":
+            m = re.match(r"p1=(\S+) app=(.*) handler=(\d+) responses=(\d+) nacks=(\d+)$", o)
+            if not m:
+                bad("live exchange: no protected request (%s)" % o[:80], "case: %s\nimpl : %s\n" % (ln, o))
+                continue
+            p1, app, nh, nr, nn = m.groups()
+            piv = G.uint_bytes(x["sseq"]) or b"\0"
+            exp = "H[" + G.dump_of(x["req"]) + "]R[" + strip_tm(G.dump_of(x["resp"], opts=obs_fix(x["resp"]["opts"], piv))) + "]"
+            got = re.sub(r"R\[(.*)\]$", lambda mm: "R[" + strip_tm(mm.group(1)) + "]", app)
+            if p1 != fm.get("p1"):
+                bad("live exchange: the datagram sent by coap_send differs from the reference",
+                    "case: %s\nreference p1: %s\nimpl : %s\n" % (ln, fm.get("p1"), o))
+            elif got != exp:
+                bad("live exchange: the application does not see the original messages: got %s expected %s" % (got[:200], exp[:200]),
+                    "case: %s\nimpl : %s\nexpected app=%s\n" % (ln, o, exp))
+            if run.cov.get("live_sample") is None:
+                run.cov["live_sample"] = {"case": ln[:300], "impl": o[:300]}
+            continue
+        m = re.match(r"(p1|p2)=(\S+) ran=(.*) n=(\d+) handler_runs=(\d+)", o)
+        if not m:
+            bad("live tamper run gives no answer (%s)" % o[:80], "case: %s\nimpl : %s\n" % (ln, o))
+            continue
+        which, dgh, ran, nvar, nruns = m.groups()
+        st["variants"] += int(nvar)
+        dg = bytes.fromhex(dgh)
+        loc = G.locate(dg)
+        rtok = x["req"]["token"]
+        if ran == "-":
+            continue
+        for item in ran.split("|"):
+            tag, seen = item.split(":", 1)
+            var = apply_variant(dg, tag)
+            vloc = G.locate(var) if len(var) >= 4 else None
+            cls = variant_class(dg, loc, tag)
+            has_osc = bool(vloc and vloc.get("opt"))
+            if which == "p1":
+                un = " ".join(["oscun", secret, salt, idctx, sid, cid, "req", var.hex() if var else "-"])
+                if cls in ("opt", "ct", "trunc") or not has_osc:
+                    bad("live server (%s): the handler of an OSCORE-only resource ran for a tampered request (variant %s, %s): %s" %
+                        ("after a genuine exchange from the same peer" if cmd == "liveflipw" else "first datagram of the peer",
+                         tag, "no OSCORE option left" if not has_osc else cls, seen[:160]),
+                        "case: %s\noriginal datagram: %s\nvariant %s\nhandler saw: %s\nreplay (PDU level): %s\n" % (ln, dgh, tag, seen, un))
+                else:
+                    st["handler_runs_unprotected_field"] += 1
+                    if len(follow) < (4000 if quick else 60000):
+                        follow.append((un, "OK [" + seen[2:-1] + "]", tag, ln))
+            else:
+                tkl = var[0] & 15 if var else 0
+                vtok_ = var[4:4 + tkl] if tkl <= 8 else None
+                un = " ".join(["oscun", secret, salt, idctx, cid, sid, "resp", G.tok(rtok), str(x["cseq"]),
+                               var.hex() if var else "-"])
+                code = var[1] if len(var) > 1 else 0
+                if cls in ("opt", "ct", "trunc") and has_osc and vtok_ == rtok:
+                    f = known_match(run, "tamper", {"direction": "resp", "field": cls, "peer_id_empty": sid == "-",
+                                                    "flag_bit": (loc["opt"] and (int(tag[1:]) - 8 * loc["opt"][0])) if cls == "opt" else None})
+                    if f:
+                        run.known(f, "live %s" % tag)
+                    else:
+                        bad("live client: the response handler ran for a tampered response (variant %s, %s): %s" % (tag, cls, seen[:160]),
+                            "case: %s\noriginal datagram: %s\nvariant %s\nhandler saw: %s\nreplay (PDU level): %s\n" % (ln, dgh, tag, seen, un))
+                elif not has_osc and vtok_ == rtok and (code >> 5) == 2:
+                    bad("live client: an unprotected 2.xx response to the protected request reached the response handler (variant %s): %s" % (tag, seen[:160]),
+                        "case: %s\noriginal datagram: %s\nvariant %s\nhandler saw: %s\n" % (ln, dgh, tag, seen))
+                else:
+                    st["handler_runs_unprotected_field"] += 1
+    # what the handler saw for variants of unprotected fields = what the reference hands out
+    if follow:
+        fm_ = vlib.run_lines_robust(model, [f[0] for f in follow], timeout=900)[0]
+        for (un, seen, tag, ln), mo in zip(follow, fm_):
+            st["reference_checked"] += 1
+            if mo != seen:
+                bad("live server: the handler saw something else than the reference hands out (variant %s)" % tag,
+                    "case: %s\nreplay (PDU level): %s\nreference: %s\nhandler : %s\n" % (ln, un, mo, seen), no_input=True)
+    st["seconds"] = round(time.time() - t0, 1)
+    run.cov["live"] = st
+    run.cov["evaluations"] += st["variants"]
+
+
 def replay(run, model, drv, path):
     """re-run the case(s) of a replay file: lines 'case: <line>' / 'replay: <line>'"""
     lines = []
@@ -130,6 +273,10 @@ def main(run):
     for i in range(n_ex):
         x = G.gen_exchange(r, big=(i % 8 == 0))
         cases.append((x, G.line_of(x)))
+    n_live = 40 if quick else 400
+    for i in range(n_live):
+        x = G.gen_live_exchange(r)
+        cases.append((x, G.line_of(x)))
     lines = [c[1] for c in cases]
     t_phase = time.time()
     # corpus deliveries (tampered datagrams of fixed defects): reference and libcoap must agree
@@ -145,6 +292,7 @@ def main(run):
     om, oc, crashes = tie.run_both(model, drv, lines)
     run.cov["driver_crashes"] = len(crashes)
     nbad = 0
+    live_cases = []     # (exchange, reference fields, libcoap PDU-level fields)
     tamper_jobs = []    # (ctx tokens for the receiving endpoint, mode tokens, datagram hex, info)
     for i, (x, ln) in enumerate(cases):
         mo, co = om[i], oc[i]
@@ -195,6 +343,8 @@ def main(run):
                     run.violation(bad, "case: %s\nmodel: %s\nimpl : %s\n" % (ln, mo, co),
                                   tag="tie%d" % nbad, no_input=no_input)
             continue
+        if x is not None and x.get("live"):
+            live_cases.append((x, fm, fc))
         # collect tamper jobs from libcoap's own datagrams
         if x is not None and fc.get("p1") not in (None, "NONE"):
             secret, salt, idctx, cid, sid = G.ctx_tokens(x["ctx"])
@@ -345,6 +495,7 @@ def main(run):
             nflip_bad += 1
             run.violation("sanitizer report / crash in libcoap (rc=%d)" % rc,
                           "case: %s\n\n%s\n" % (alines[idx], err), tag="asan%d" % idx)
+    live_phase(run, model, live_cases, quick)
     stats["reference_checked"] = len(followups)
     stats["reference_disagreements"] = ndis
     run.cov["tamper"] = stats
